@@ -83,11 +83,17 @@ def run():
     for (label, spec, row) in targets[:400:50]:
         rep.sample({"program": label, "depth": row["depth"], "has_root": row["root"],
                     "obligation": "forall canonical s in L of the pattern's rootedness: components(s) within depth"})
+    import os, sys
+    sys.path.insert(0, os.path.join(os.path.dirname(os.path.abspath(__file__)), "..", "kanidrv"))
+    import runprop
+    kcov, kinc = runprop.run_kani_part("C10", rep)
     rep.assumptions.append("canonical paths only; rooted iff the pattern reports has_root Always (both shapes when Sometimes); the root is not counted as a component; the empty path is excluded (it has no components)")
     return ses.finish(len(tasks), {"programs_total": len(targets), "depth_shapes_seen": len(kinds),
-                                   "generated": stats,
+                                   "generated": stats, "kani": kcov,
                                    "functions_encoded": ["token::parse", "rule::check", "encode::compile",
-                                                          "Token::variance::<Depth>", "crate::any"]})
+                                                          "Token::variance::<Depth>", "crate::any",
+                                                          "range algebra (Kani, see kani.harnesses)"]},
+                      inconclusive=kinc)
 
 
 if __name__ == "__main__":
